@@ -266,6 +266,71 @@ def epal_directed(kind, algo="EpsilonPAL", variant=0):
     raise ValueError(kind)
 
 
+def paveba_gp_requery(algo="PaVeBaGP-IH", variant=0):
+    """PaVeBaGP (componentwise order): design 2 (p) enters P in round 0 and stays useful because it can cover design 1
+    (c'), while it canNOT cover design 0 (c) in round 0 (c is better in the second objective); c is kept in S by c'.
+    In round 1 c's region has widened downwards, so that p CAN cover it, and c' has collapsed so that it no longer can:
+    c must stay in S in round 1 (the covering test is asked about the regions displayed in that round)."""
+    e = 0.25
+    sh = [0.0, 0.5, -1.0][variant % 3]
+    def B(lo, up):
+        return ([x + sh for x in lo], [x + sh for x in up])
+    p = B([4.0, 4.0], [4.25, 4.25])
+    c0 = B([0.0, 5.0], [0.5, 5.5]); c1 = B([0.0, 3.0], [0.5, 5.5])
+    d0 = B([-1.0, -1.0], [3.0, 7.0]); d1 = B([-1.0, -1.0], [3.0, 2.0])
+    Y = [[0.25 + sh, 5.25 + sh], [1.0 + sh, 1.0 + sh], [4.125 + sh, 4.125 + sh]]
+    spec = _spec_from_boxes(algo, Y, [[c0, d0, p], [c0, d0, p], [c1, d1, p], [c1, d1, p]], e, "paveba-gp-requery", False)   # the PaVeBa family counts rounds from 1
+    return spec
+
+
+def paveba_same_round_blocker(algo="PaVeBaPartialGP-rect", variant=0):
+    """valid history (componentwise order): design 0 (p) is far better than design 1 (q) and is decided first in the
+    Pareto pass of round 1 (small id first); q, still too uncertain upwards in one objective to be discarded, is blocked
+    from entering P only by p — also in the very pass in which p itself is moved to P.  Later rounds are tiny boxes
+    around the truth, in which q is discarded.  q must never end in P (its gap is far above eps)."""
+    e = 0.25
+    sh = [0.0, 0.5, -1.0][variant % 3]
+    def B(lo, up):
+        return ([x + sh for x in lo], [x + sh for x in up])
+    p = B([4.0, 4.0], [4.25, 4.25]); q = B([1.0, 1.0], [2.0, 4.5])
+    Y = [[4.125 + sh, 4.125 + sh], [1.5 + sh, 1.5 + sh]]
+    t = 2.0 ** -8
+    late = [([y - t for y in Y[0]], [y + t for y in Y[0]]), ([y - t for y in Y[1]], [y + t for y in Y[1]])]
+    return _spec_from_boxes(algo, Y, [[p, q], [p, q], late, late, late], e, "same-round-blocker", True)
+
+
+def vogp_acute3_directed(variant=0):
+    """valid VOGP history with three objectives under the acute cone acute3 (rows (1,-2,4), (4,1,-2), (-2,4,1)): in round 0
+    the truth of design 0 sits at the (upper, lower, upper) corner of its rectangle and the truth of design 1 at the
+    (lower, upper, lower) corner of its own — the corner pair that decides facet 1 of the discarding test.  In truth design 1
+    misses eps-dominating design 0 on that facet by 1/8 (design 0 is eps-isolated and must end in P); on the two other
+    facets it dominates with room to spare.  Design 0's rectangle is wide, so design 1 pessimistically dominates it and the
+    discarding test is really asked about the pair.  Later rounds are tiny boxes around the truth.  The slack of the run is read
+    from a preliminary one-round run (it is the library's u*_eps snapped to 2^-20), so all values are exact dyadics."""
+    W = gen.CONES_3D["acute3"][0]
+    eps = [0.5, 0.25, 1.0][variant % 3]
+    X = [[0.0, 0.0], [0.25, 0.0]]
+    pre = {"algo": "VOGP", "cone": "acute3", "W": W, "X": X, "Y": [[0.0] * 3, [4.0] * 3], "eps": eps, "valid_by_construction": True,
+           "style": "pre", "means": [[[0.0] * 3, [4.0] * 3]], "hw": [[[0.5] * 3, [0.5] * 3]], "batch": 1, "contraction": 1.0, "costs": None,
+           "budget": None, "auer_empirical": False, "no_shrink": True}
+    rec = run_spec(pre, max_steps=1)
+    import numpy as _np
+    sl = _np.asarray(rec["slack_cov"], dtype=float).ravel()
+    sl = [float(x) for x in (_np.repeat(sl, 3) if sl.size == 1 else sl)]
+    t = [8.0, 8.0, 1.96875]                                   # W t = (-1/8, 36.0625, 17.96875)
+    Y0 = [0.0, 0.0, 0.0]; Y1 = [a - b for a, b in zip(t, sl)]
+    g = 0.125; G = 2.0                                        # design 0 is wide: design 1 dominates its lower corner (pessimistically)
+    b0 = ([-G, 0.0, -G], [0.0, G, 0.0])
+    b1 = ([Y1[0], Y1[1] - g, Y1[2]], [Y1[0] + g, Y1[1], Y1[2] + g])
+    tiny = 2.0 ** -10
+    rounds = [[b0, b1]] + [[([y - tiny for y in Y0], [y + tiny for y in Y0]), ([y - tiny for y in Y1], [y + tiny for y in Y1])]] * 5
+    means = [[[(l + u) / 2 for l, u in zip(lo, up)] for lo, up in rnd] for rnd in rounds]
+    hws = [[[(u - l) / 2 for l, u in zip(lo, up)] for lo, up in rnd] for rnd in rounds]
+    return {"algo": "VOGP", "cone": "acute3", "W": W, "X": X, "Y": [Y0, Y1], "eps": eps, "valid_by_construction": True,
+            "style": "vogp-acute3-corner", "means": means, "hw": hws, "batch": 1, "contraction": 1.0, "costs": None,
+            "budget": None, "auer_empirical": False, "no_shrink": True}
+
+
 def cover_adversarial(rng, algo):
     """valid history for VOGP with a cone wider than the orthant: design 1 dominates design 0 beyond the
     eps-slack while being WORSE in one objective; design 0 stays very uncertain in one objective for the
